@@ -28,7 +28,7 @@ RULE = (
 )
 ASSUMPTIONS = ["model_params None and '' are the same absent value (the code normalises on purpose)"]
 
-meta_key = st.sampled_from(("model", "model_params", "study", "year", "zfit", "note", "tag_1", "x", "mother", "decays"))
+meta_key = st.sampled_from(("model", "model_params", "study", "year", "zfit", "note", "tag_1", "x", "mother", "decays", "metadata", "info"))
 meta_strategy = st.dictionaries(meta_key, json_val, max_size=4)
 
 
@@ -141,7 +141,8 @@ def gen_chain_case(draw):
 
 @st.composite
 def fs_case(draw):
-    names = draw(st.lists(st.one_of(st.sampled_from(N.evtgen_names()), st.text(alphabet="abcXYZ019+-*'()_~", min_size=1, max_size=5)),
+    names = draw(st.lists(st.one_of(st.sampled_from(N.evtgen_names()), st.text(alphabet="abcXYZ019+-*'()_~", min_size=1, max_size=5),
+                                    st.sampled_from(("X(3872),a", "a,b", ",", "K+,", "p;q", "a=b", "x:y", "[k]", "{z}", "pi|pi"))),  # only white space separates names
                           min_size=0, max_size=6, unique=True))
     counts = [draw(st.integers(0, 4)) for _ in names]
     order = draw(st.permutations(list(range(sum(counts)))))
